@@ -183,7 +183,14 @@ def run(tier, seed, replay=None):
     gsrc = ast.unparse([f for f in [n for n in tree.body if isinstance(n, ast.ClassDef) and n.name == "DigitalMetadataWriter"][0].body
                         if isinstance(f, ast.FunctionDef) and f.name == "_sample_group_generator"][0])
     ck.struct("vis.closed_on_return", "with h5py.File(this_file, 'a') as f" in gsrc, "the writer must open each metadata file in a with block (closed before write returns)", {})
+    from checks import dmd_common
+    symdm = pyload.module("digital_metadata")
+    dmd_common.bounds_and_latest(ck, symdm)
+    dmd_common.writer_placement(ck, symdm, 2)
+    ck.replayers["dmd."] = C13.replay_dmd
+    ck.replayers["w.gen"] = C13.replay_dmd
     ck.replayers["ro."] = C13.replay_dmd
+    ck.discharge()
     n = 1200 if tier == "thorough" else 120
     r = replay_py.run_driver("dmd_history.py", {"seed": seed + 2, "channels": n, "queries": 8, "max_failures": 3}, timeout=3000)
     ck.bounded_runs.append(("bounded.visibility_and_readonly", "%d metadata channels: after every write call a new reader and a reader created before the first write report it (bounds, read(k,k), read_latest); the tree is hashed before/after every read" % n,
@@ -192,5 +199,5 @@ def run(tier, seed, replay=None):
     ck.bounded_runs.append(("bounded.rf_reads", "RF reader queries (tree unchanged is implied by the inventory; values vs model)", r2["cases"], r2["failures"]))
     ck.assumptions += ["call graph resolved by name (self.x within the class, otherwise any non-writer class): an over-approximation of reachable effects; a reader never holds a writer object",
                        "h5py.File(..., 'r') does not modify the file"]
-    ck.extra["explanation"] = "frame condition of the read APIs as an effect inventory over the name-based call graph (may-analysis, so 'no mutator reachable' is a proof); visibility by bounded differential"
+    ck.extra["explanation"] = "frame condition of the read APIs as an effect inventory over the name-based call graph (may-analysis, so 'no mutator reachable' is a proof); visibility: no reader-side cache, files closed before write returns, bounds scan and read_latest under contract; end-to-end by bounded differential"
     return ck
